@@ -79,6 +79,34 @@ var plans = map[string]plan{
 		Quick:    []job{{"plain", 8}},
 		Thorough: []job{{"plain", 16}, {"asan", 4}},
 	},
+	"C07": {
+		Level:    "exploration",
+		Rule:     "case = load/reload/query history on StrMap[int], StrMap[struct] and Str2Str instances: key sets of sizes around every entry of the prime table (0..1000, thorough up to 2*10^5) with adversarial key shapes (empty key, all proper prefixes of a long key, shared prefixes/suffixes, one-bit near-duplicates, mixed and equal lengths), LoadFromMap/LoadFromSlice sequences growing and shrinking one instance, failed (length-mismatch) loads in between, never-loaded and empty maps; probes = every key, key +/- one byte, prefixes, suffixes, bit-flips, keys of earlier rounds, random strings; every answer (Get, Len, Item enumeration) compared with a Go map. Fresh instances per case give fresh hash seeds. Non-trivial iff n >= 2 or a reload or an empty/prefix key; distinct by case index (hash seeds differ per instance).",
+		Required: []string{"map queries compared", "failed loads checked", "never-loaded/empty cases", "load cycles"},
+		Quick:    []job{{"plain", 8}},
+		Thorough: []job{{"plain", 16}, {"race", 4}},
+	},
+	"C11": {
+		Level:    "exploration",
+		Rule:     "case = Base / BaseResp / ApplicationException value (strings of 0..9000 bytes, nil / empty / 1..50-entry maps): BLength vs FastWrite vs FastWriteNocopy(nil) vs FastRead lengths, bytes vs an independent encoder (maps <= 1 entry), value reproduced; then the same value encoded independently with the known fields in a random permutation and 0..6 unknown fields of any type (generated value trees; ids equal to known ids with another type, ids colliding modulo 256, whole int16 range) inserted at every gap, followed by trailing garbage: FastRead must return the exact stream length and undisturbed known fields. Inputs sit in a guard-page arena. Non-trivial iff >= 1 unknown field; distinct by (struct kind, field order, bytes).",
+		Required: []string{"structs checked", "structs with unknown fields"},
+		Quick:    []job{{"plain", 8}},
+		Thorough: []job{{"plain", 16}},
+	},
+	"C12": {
+		Level:    "exploration",
+		Rule:     "case = (method name of 0..70000 arbitrary bytes, message type, sequence id) through WriteMessageBegin / AppendMessageBegin / BufferWriter.WriteMessageBegin vs an independent encoder and MessageBeginLength, read back by Binary.ReadMessageBegin (guard-page arena) and BufferReader.ReadMessageBegin over a fragmenting source; all 65536 message types; all 65536 first-word high halves x 5 low halves (must be accepted iff 0x8001, else BAD_VERSION on both readers); every truncation point and negative name lengths (both readers and UnmarshalFastMsg must fail); MarshalFastMsg -> UnmarshalFastMsg round trips with BaseResp payloads; EXCEPTION messages must surface as *ApplicationException with type id and text and leave the caller's struct untouched. Every case is non-trivial; distinct by its parameters.",
+		Required: []string{"envelopes round-tripped", "first words tried", "truncation sweeps", "messages round-tripped", "exception messages"},
+		Quick:    []job{{"plain", 8}},
+		Thorough: []job{{"plain", 16}},
+	},
+	"C13": {
+		Level:    "exploration",
+		Rule:     "case = sequence of 1..5 typed fields (generated value trees of every type, nesting <= 5, any field ids, canonical booleans) encoded by the independent encoder: ConvertUnknownFields must yield exactly the generator-built expected tree (IDs, Type, KeyType/ValType only on containers, element IDs = index, doubles by bit pattern), UnknownFieldsLength must equal the byte count, WriteUnknownFields must reproduce the bytes, and the expected tree must survive write-then-convert. Plus the full 11x11 grid of (container field, following sibling) pairs inside nested structs under 4 wrappings and the container x key x value x size grid. Non-trivial iff a container is present; distinct by field trees.",
+		Required: []string{"field sequences round-tripped", "sibling-tag cases", "combo-grid cases"},
+		Quick:    []job{{"plain", 8}},
+		Thorough: []job{{"plain", 16}},
+	},
 }
 
 func init() {
